@@ -38,7 +38,8 @@ Find(ch, k) == {i \in 1..Len(ch) : ch[i].k = k}
 Without(ch, i) == SubSeq(ch, 1, i - 1) \o SubSeq(ch, i + 1, Len(ch))
 ToFront(ch, i) == <<ch[i]>> \o Without(ch, i)
 
-\* one call on cache ch; id names the object a fresh decode creates.  Result: answer, object handed back, cache afterwards
+\* one call on cache ch; id names the object a fresh decode creates.  Result: answer, object handed back, whether a NEW entry
+\* was inserted, cache afterwards
 Run(b, c, ch, id, cap) ==
     LET k   == KeyOf(b)
         hit == Find(ch, k)
@@ -47,15 +48,15 @@ Run(b, c, ch, id, cap) ==
         r   == Pure(b, c)
     IN
     IF hit # {} /\ (ch[i].v[1] = c \/ "NoCurveCheck" \in Dev)
-    THEN [res |-> [ok |-> TRUE, pt |-> ch[i].v], obj |-> ch[i].id, cache |-> ch1]
-    ELSE IF ~r.ok THEN [res |-> r, obj |-> 0, cache |-> ch1]
-    ELSE IF "R1Only" \in Dev /\ c # "p256" THEN [res |-> r, obj |-> id, cache |-> ch1]
+    THEN [res |-> [ok |-> TRUE, pt |-> ch[i].v], obj |-> ch[i].id, ins |-> FALSE, cache |-> ch1]
+    ELSE IF ~r.ok THEN [res |-> r, obj |-> 0, ins |-> FALSE, cache |-> ch1]
+    ELSE IF "R1Only" \in Dev /\ c # "p256" THEN [res |-> r, obj |-> id, ins |-> FALSE, cache |-> ch1]
     ELSE LET e == [k |-> k, v |-> r.pt, id |-> id] IN
-         IF hit # {} THEN [res |-> r, obj |-> id, cache |-> <<e>> \o Tail(ch1)]
-         ELSE IF Len(ch1) < cap THEN [res |-> r, obj |-> id, cache |-> <<e>> \o ch1]
+         IF hit # {} THEN [res |-> r, obj |-> id, ins |-> FALSE, cache |-> <<e>> \o Tail(ch1)]
+         ELSE IF Len(ch1) < cap THEN [res |-> r, obj |-> id, ins |-> TRUE, cache |-> <<e>> \o ch1]
          ELSE LET old == ch1[Len(ch1)]
                   e2  == IF "StaleEvict" \in Dev THEN [k |-> k, v |-> old.v, id |-> old.id] ELSE e
-              IN [res |-> r, obj |-> id, cache |-> <<e2>> \o SubSeq(ch1, 1, Len(ch1) - 1)]
+              IN [res |-> r, obj |-> id, ins |-> TRUE, cache |-> <<e2>> \o SubSeq(ch1, 1, Len(ch1) - 1)]
 
 Init == cache = <<>> /\ last = [call |-> NoCall, res |-> Refused]
 Do(k) == LET r == Run(k.b, k.c, cache, 0, Cap) IN cache' = r.cache /\ last' = [call |-> k, res |-> r.res]
